@@ -119,7 +119,7 @@ func worker_1E8(jobs <-chan string, out chan<- *R) {
 		log.Printf("[%s] 重叠子序列检测 m=5 P1: %.5f P2: %.5f Q1: %.5f Q2: %.5f", filename, p1, p2, q1, q2)
 		p1, p2, q1, q2 = randomness.OverlappingTemplateMatchingProto(bits, 7)
 		PArr = append(PArr, p1, p2)
-		QArr = append(QArr, q1, q1)
+		QArr = append(QArr, q1, q2)
 		log.Printf("[%s] 重叠子序列检测 m=7 P1: %.5f P2: %.5f Q1: %.5f Q2: %.5f", filename, p1, p2, q1, q2)
 
 		// [5] 游程总数检测
